@@ -243,8 +243,10 @@ def _config(case: dict):
         core = (configs or {}).get("core", {})
         if not (isinstance(core, dict) and "dialect" in core):
             ov["dialect"] = case.get("dialect") or "ansi"
+        from sqlfluff.core.parser import Lexer
+
         cfg = FluffConfig(configs=configs, overrides=ov)
-        _CFG[key] = (cfg, Linter(config=cfg))
+        _CFG[key] = (cfg, Linter(config=cfg), Lexer(config=cfg))
     return _CFG[key]
 
 
@@ -272,7 +274,7 @@ def record_case(case: dict) -> dict:
                            "idem_required": False, "events": []}
     quiet_logs()
     try:
-        cfg, lnt = _config(case)
+        cfg, lnt, lexer = _config(case)
     except Exception as e:  # a config the code rejects is not a fix run
         out["status"] = f"config:{type(e).__name__}"
         return out
@@ -299,9 +301,8 @@ def record_case(case: dict) -> dict:
         out["fixed"] = fixed
         out["changed_text"] = fixed != case["sql"]
         # re-lex the text of the fixed tree (what the loop's own validity check never does)
-        from sqlfluff.core.parser import Lexer
         try:
-            toks, lerrs = Lexer(config=cfg).lex(lf.tree.raw)
+            toks, lerrs = lexer.lex(lf.tree.raw)
             rec.events.append({"ev": "Relex", "toks": project(toks, tb), "nerr": len(lerrs)})
         except Exception as e:
             rec.events.append({"ev": "Relex", "toks": NOTOKS, "nerr": 1, "crash": type(e).__name__})
